@@ -129,27 +129,32 @@ Definition tree_file (symlinks_ok : bool) (dd : list str) (mode : N) (nf : str *
        end.
 Definition tree_dlink (symlinks_ok : bool) (dd : list str) (nt : str * str) : option (list str * pnode) :=
   if good_name (fst nt) && symlinks_ok then Some (dd ++ [fst nt], PLink (snd nt)) else None.
-Definition tree_one (symlinks_ok : bool) (dest : list str) (dmode : option N) (mode : N) (base : str) (w : wentry)
+Definition tree_one (symlinks_ok : bool) (destb : list str) (dmode : option N) (mode : N) (w : wentry)
   : option (list (list str * pnode)) :=
   if negb (forallb good_name (w_rel w)) then None else
-  let dd := dest ++ base :: w_rel w in
+  let dd := destb ++ w_rel w in
   match opt_all (map (tree_dlink symlinks_ok dd) (w_dlinks w)), opt_all (map (tree_file symlinks_ok dd mode) (w_files w)) with
   | Some ls, Some fs => Some ((dd, PDir dmode) :: ls ++ fs)
   | _, _ => None
   end.
-Fixpoint tree_walk (symlinks_ok : bool) (dest : list str) (dmode : option N) (mode : N) (base : str) (walk : list wentry)
+Fixpoint tree_walk (symlinks_ok : bool) (destb : list str) (dmode : option N) (mode : N) (walk : list wentry)
   : option (list (list str * pnode)) :=
   match walk with
   | [] => Some []
-  | w :: r => match tree_one symlinks_ok dest dmode mode base w, tree_walk symlinks_ok dest dmode mode base r with
+  | w :: r => match tree_one symlinks_ok destb dmode mode w, tree_walk symlinks_ok destb dmode mode r with
               | Some a, Some b => Some (a ++ b)
               | _, _ => None
               end
   end.
+(* the rule on the spelling of a directory argument d (as `cp -r`, and as every package manager
+   implements doins -r): trailing slashes are dropped and the last component names the directory
+   created below <dest>; when that component is "." (d = "dir/.", "dir/./", "${S}/.", ".") the
+   CONTENTS of the directory go directly into <dest>; ".." or an empty name: not defined *)
 Definition tree_entries (symlinks_ok : bool) (dest : list str) (dmode : option N) (mode : N) (d : str) (walk : list wentry)
   : option (list (list str * pnode)) :=
   let base := basename (rstrip_sl d) in
-  if good_name base then tree_walk symlinks_ok dest dmode mode base walk else None.
+  if str_eqb base dot then tree_walk symlinks_ok dest dmode mode walk
+  else if good_name base then tree_walk symlinks_ok (dest ++ [base]) dmode mode walk else None.
 
 Definition flat_one (dest : list str) (mode : N) (a : str * skind) : option (list str * pnode) :=
   match snd a with
@@ -427,7 +432,7 @@ Definition spec_helper_ok (i : inv) (r : val) : bool :=
   | PReject, VErr _ => true
   | PReject, _ => false
   | PExpect ex, VL l =>
-      forallb (entry_is l) (last_wins ex)
+      forallb (fun kn => is_nil (fst kn) || entry_is l kn) (last_wins ex)
       && forallb (fun v => in_pre (pre i) v
                            || (if is_dir_entry v then dir_accounted i ex v else expected_key ex v)) l
   | PExpect _, _ => false
